@@ -240,6 +240,8 @@ class Contract:
     node_stack: str = ""             # frame mode: this ctx field is the parser's node stack (ghost sequence of kind names, pyvc/pnodes.py)
     assume_ensures: bool = False     # as a callee: havoc `modifies`, then assume `ensures` (old() = the state before the call)
     default_loop: dict = field(default_factory=dict)   # loop spec for loops without a sidecar entry
+    candidate_refutations: bool = False   # counter-models are candidates (over-approximated library results): replay decides
+    cvc5_first: bool = False         # string-containment obligations: give z3 one second, then cvc5
     seq_split: bool = False          # value mode: s.split(d) is the immutable sequence py_split(s, d) (shared with the spec)
 
 
@@ -423,7 +425,7 @@ class X:
         lines = self.site_counts.setdefault(key, {})
         if ln not in lines:
             lines[ln] = len(lines)
-        if not hints and getattr(self.c, "node_stack", ""):
+        if not hints and (getattr(self.c, "node_stack", "") or getattr(self.c, "cvc5_first", False)):
             hints = ["cvc5-first"]
         self.obligs.append(Obligation(kind, self.cur_fn, site, lines[ln], list(st.pc), goal,
                                       exc=exc, prop=self.c.prop, line=ln, detail=detail,
@@ -2124,7 +2126,8 @@ class X:
                     self.obligs.append(Obligation(kind, self.cur_fn, ob_site[:200], 0, list(s2.pc),
                                                   self.truth_st(v, s2), prop=self.c.prop,
                                                   line=getattr(node, "lineno", 0),
-                                                  hints=["cvc5-first"] if getattr(self.c, "node_stack", "") else []))
+                                                  hints=["cvc5-first"] if (getattr(self.c, "node_stack", "")
+                                                                           or getattr(self.c, "cvc5_first", False)) else []))
 
     def _post_raise(self, s: St, chain, oc, entry: St):
         exc = oc[1]
